@@ -36,6 +36,19 @@ Tolerances (all derived here, see ``tol_pos``):
   long spans; measured worst 1.1e-9 (RK45, one LEO hour) and 1.3e-9 (one LEO day).  Tolerance
   1e-12 + 300 * rtol * (1 + 2 revs) (7e-8 for a LEO hour: 60x the measured value; any force or layout slip changes
   the energy by > 1e-6), same for |h| and the direction of h (radians).
+* epoch split (dynamics built by ``dynamicsFactory`` from a ``ScenarioClock`` that already shows T elapsed seconds, the
+  way ``Scenario.addTarget`` / ``addSensor`` build them for agents added mid-run): against the same factory called with
+  a clock restarted at the same absolute instant (start S+T, time 0) or split elsewhere (start S+T1, time T-T1) the two
+  runs differ by the Julian-date rounding only, i.e. the start-epoch-shift tolerance tol_pos / 5 above.  Against the
+  independent absolute-epoch reference trajectory (``verif/oracles/c03_sp_ref.py``: C13's reference force model,
+  DOP853 at rtol 1e-12, i.e. 100x tighter than the library) the difference is the library's own global error E(T)
+  plus the force-model disagreement that C13 bounds: tolerance tol_pos (measured worst ratio 0.02 without SRP); with
+  SRP the eclipse allowance a_srp T^2 of ``_Ctx`` is added for both integrators (the reference integrator steps over
+  the penumbra as well; measured 7e-5 km for a LEO hour).  An elapsed time counted twice (or not at all) moves the
+  force-model epoch by T: measured 2.6e-4 km (T = 600 s, 300 s span, LEO, 4x4 field) to 1e-2 km (T = 2400 s, one
+  hour), 50x-300x the tolerance; every case reports that measured sensitivity and is non-trivial only above 100x.
+  A satellite added at T with exactly the state of one present from the start calls the same function with the same
+  arguments from then on: the two truth states must be bit-identical (no tolerance).
 """
 from __future__ import annotations
 
@@ -52,14 +65,18 @@ from verif import framework as fw
 from verif import fakeray
 
 fakeray.install()  # keeps the real ray out of the worker processes; nothing here needs a cluster
+from verif import scen  # noqa: E402  (real Scenario / ScenarioClock over the fake-ray seam, for the epoch-split family)
 _lg = logging.getLogger("resonaate")
 if not _lg.handlers:
     _lg.addHandler(logging.NullHandler())
 _lg.setLevel(100)
 _lg.propagate = False
 
+from verif.oracles import c03_sp_ref as spref  # noqa: E402
 from verif.oracles import kepler_ref as kr  # noqa: E402
 
+from resonaate.data import setDBPath  # noqa: E402
+from resonaate.dynamics import dynamicsFactory  # noqa: E402
 from resonaate.dynamics.dynamics_base import Dynamics  # noqa: E402
 from functools import partial  # noqa: E402
 
@@ -70,9 +87,12 @@ from resonaate.dynamics.two_body import TwoBody  # noqa: E402
 from resonaate.physics.bodies import Earth  # noqa: E402
 from resonaate.physics.orbits import kepler as rkep  # noqa: E402
 from resonaate.physics.orbits import utils as rut  # noqa: E402
-from resonaate.physics.time.stardate import JulianDate, ScenarioTime  # noqa: E402
+from resonaate.physics.time.stardate import JulianDate, ScenarioTime, datetimeToJulianDate  # noqa: E402
+from resonaate.scenario.clock import ScenarioClock  # noqa: E402
+from resonaate.scenario.config.agent_config import AgentConfig  # noqa: E402
 from resonaate.scenario.config.geopotential_config import GeopotentialConfig  # noqa: E402
 from resonaate.scenario.config.perturbations_config import PerturbationsConfig  # noqa: E402
+from resonaate.scenario.config.propagation_config import PropagationConfig  # noqa: E402
 
 PROPERTY = "C03"
 LEVEL = "model_checking"
@@ -86,9 +106,19 @@ RULE = (
     "Kepler reference and with energy / angular-momentum conservation. A case is non-trivial when the decomposition "
     "differs from the single call (split strictly inside, K>1, >=2 output times, restart strictly inside, D != 0 "
     "with a measured uncompensated epoch sensitivity > 100 tolerances) and, for Kepler/conservation cases, when the "
-    "non-linear part of the motion |r(T) - r0 - v0 T| exceeds 1000 tolerances. Distinct by construction (lattice "
-    "points); VERIF_SEED rotates RAAN/argument of perigee/third anomaly, the SP start day and the batch column "
-    "assignment."
+    "non-linear part of the motion |r(T) - r0 - v0 T| exceeds 1000 tolerances. Epoch-split family (SP, time-dependent "
+    "force models: tesseral field, third bodies, SRP): for every (configuration, orbit, span, elapsed time T of the "
+    "listed alphabet, integrator) the dynamics object is built by the real dynamicsFactory from a real ScenarioClock "
+    "(start S) ticked to T - the way Scenario.addTarget/addSensor build it for an agent added mid-run - and "
+    "propagated T -> T+span; it is compared with the factory called on a clock restarted at the same instant (start "
+    "S+T, time 0), on a clock split elsewhere (start S+T1, time T-T1) and with an independent reference trajectory "
+    "integrated at the absolute epoch S+T; non-trivial when T > 0 and the measured effect of counting T twice exceeds "
+    "100 tolerances. Twin family: a real truth-only Scenario flies satellite A from the start; at T a target (dict "
+    "and AgentConfig forms of Scenario.addTarget) and a space sensor (addSensor) are added with exactly A's state, "
+    "and in a second run by target_addition / sensor_addition events; every twin's state at every later step, and "
+    "one step of its truth and filter dynamics objects, must be bit-identical to A's; non-trivial when T > 0. "
+    "Distinct by construction (lattice points); VERIF_SEED rotates RAAN/argument of perigee/third anomaly, the SP "
+    "start day, the batch column assignment and the orbit assignment of the epoch-split / twin items."
 )
 ASSUMPTIONS = [
     "closed-form conic relations (Kepler's equation in E/F, Barker's equation) in verif/oracles/kepler_ref.py are the "
@@ -97,6 +127,12 @@ ASSUMPTIONS = [
     "the force model value of SpecialPerturbations is the subject of C13; here only its dependence on (epoch, state)",
     "events used to force a restart are test doubles deriving from DiscreteStateChangeEvent with a constant state "
     "change; scheduling/queueing of real impulses belongs to C01/C15",
+    "epoch-split reference trajectory: C13's independent force model (verif/oracles/force_ref.py) evaluated at "
+    "absolute UTC instants, the library's public ecef2eci for the Earth orientation (C04's subject), scipy DOP853 at "
+    "rtol 1e-12",
+    "twin family, event variant: a scenario_step target_addition / sensor_addition event whose start_time is the end "
+    "of the step T -> T+dt is applied at clock time T, before that step is propagated (event timing is C01's "
+    "subject; a change there shows under the twin/added_by_event signatures only)",
 ]
 EXPECT_MIN_NONTRIVIAL = 10000
 
@@ -130,6 +166,21 @@ SAT_RATIO = 0.0605  # (1 + 0.21) * 25 m^2 / 500 kg
 A_SRP = 4.56e-6 * SAT_RATIO / 1000.0  # km/s^2 at 1 au: solar pressure 4.56e-6 N/m^2 times (1 + reflectivity) A / m
 EPOCH_SHIFTS = [1.0, 1000.0, 86400.0, -300.0]
 RESTART_DV = [0.010, -0.020, 0.005]  # km/s, constant state change of the test event
+# ---- epoch-split family: elapsed scenario seconds at which a dynamics object is built (multiples of the 300 s clock
+# step).  600 s / 2400 s: the first steps of a run (tesseral field: 2.5 / 10 deg of Earth rotation); 30000 s: not close to
+# a multiple of the sidereal day; 86400 s (a solar day is 1 deg short of a full Earth rotation: the tesseral alias, but
+# 13 deg of lunar motion) and 1.5 days; a month for the configuration whose only fast-varying term is the Sun direction
+ES_T = [0.0, 600.0, 2400.0, 30000.0, 86400.0, 129600.0]
+ES_T_SRP = [0.0, 2400.0, 86400.0, 129600.0, 30.0 * 86400.0]
+ES_SPANS = [300.0, 3600.0]
+ES_RK45_HOUR_T = [2400.0, 86400.0]  # quick tier: an SP hour costs 0.3 s with RK45, so RK45 x one-hour span gets these T only
+ES_CLOCK_STEP = 300.0
+ES_MODEL = "egm96.txt"
+# spacecraft platform handed to the factory: (1 + 0.21) * 25 / 500 = SAT_RATIO, the value the direct constructions use
+ES_PLATFORM = {"type": "spacecraft", "mass": 500.0, "visual_cross_section": 25.0, "reflectivity": 0.21}
+TWIN_DT = 300.0
+TWIN_ADD_STEPS = [0, 2, 8]  # the twins are added after this many 300 s steps (T = 0, 600, 2400 s)
+TWIN_AFTER = 2  # steps flown together after the addition
 
 
 # ------------------------------------------------------------------------------------------------ lattice
@@ -241,6 +292,31 @@ def items(tier, seed):
     # ---- SRP with the Sun not listed as a third body: start-epoch shifts of a day and a month (RK45: smooth enough)
     for ch in _chunks(_rot(_sp_orbits(seed, 6), seed)[:4], [1, 1, 1, 1]):
         out.append(["prop", "sp_srp", "RK45", 3600.0, 31.0 * 86400.0, jd0, "sp_lean", [_orbit(i, seed) for i in ch]])
+    # ---- epoch split: dynamics built by the factory at elapsed time T (one orbit per item, both integrators inside)
+    es_cfgs = ["sp_g4", "sp_g2sm", "sp_srp"] + (["sp_g3all", "sp_g8"] if thorough else [])
+    pool = _sp_orbits(seed, 12)  # two orbits for each of the six (a, e)
+    for ci, cfg in enumerate(es_cfgs):
+        if thorough:
+            idxs = _sp_orbits(seed, 13)
+        else:  # one low (6800 / 7500 km), one eccentric medium (12000 / 26560 km), one high (42164 / 60000 km) orbit
+            idxs = [pool[(seed + ci) % 4], pool[4 + (seed + ci + 1) % 4], pool[8 + (seed + ci + 2) % 4]]
+        for i in idxs:
+            for span in ES_SPANS:
+                Ts = ES_T_SRP if cfg == "sp_srp" else ES_T
+                rk_T = Ts if (thorough or span < 3600.0) else [t for t in Ts if t in ES_RK45_HOUR_T]
+                out.append(["epoch_split", cfg, span, Ts, rk_T, jd0, seed, _orbit(i, seed)])
+    # ---- twins: satellites added to a running scenario with exactly the state of one that flies from the start
+    j = 0
+    for cfg in es_cfgs:
+        for method in METHODS:
+            for k_add in TWIN_ADD_STEPS:
+                if k_add == 0 and not (thorough or method == "RK45"):
+                    continue
+                n_orb = 13 if thorough else 12
+                orbs_t = [pool[(seed + 5 * j) % 12]] if not thorough else [_sp_orbits(seed, 13)[(seed + j + q) % n_orb] for q in (0, 4, 8)]
+                for i in orbs_t:
+                    out.append(["epoch_twin", cfg, method, TWIN_DT, k_add, TWIN_AFTER, seed, _orbit(i, seed)])
+                j += 1
     # ---- closed-form solver and helpers
     for ch in fw.chunked(all_idx, 15):
         out.append(["universal", [_orbit(i, seed) for i in ch]])
@@ -258,6 +334,10 @@ def items(tier, seed):
 
 
 def _cost(it):
+    if it[0] == "epoch_split":
+        return (0.0012 * it[2] + 0.6) * (6800.0 / it[7][0]) ** 0.5
+    if it[0] == "epoch_twin":
+        return 1.0
     if it[0] != "prop":
         return 0.5
     _, kind, method, T, _t0, _jd, mode, orbs = it
@@ -286,6 +366,20 @@ def bounds(tier, seed):
         "grids": {"grid1": [1.0], "grid3": GRID3, "grid10": GRID10, "edges": "t0+1 s, t2-1 s, t2 (0.25/0.75 for T<=2 s)"},
         "batch_sizes": sorted({len(it[7]) for it in props}), "sp_configs": {k: SP_CFG[k] for k in sorted({it[1] for it in props if it[1] != "twobody"})},
         "sp_start_epoch": _iso(_jd0(seed)), "epoch_shifts_s": EPOCH_SHIFTS, "restart_event_fractions": [0.37, 0.5],
+        "epoch_split": {
+            "elapsed_T_s": ES_T, "elapsed_T_s_sp_srp": ES_T_SRP, "spans_s": ES_SPANS, "rk45_one_hour_T_s": "all" if tier == "thorough" else ES_RK45_HOUR_T,
+            "splits": ["(S, T)", "(S+T, 0)", "(S+T1, T-T1), T1 = 300 floor(T/600) [DOP853]", "absolute-epoch reference"],
+            "configs": sorted({it[1] for it in its if it[0] == "epoch_split"}), "clock_step_s": ES_CLOCK_STEP,
+            "orbits": sorted({tuple(it[7][:3]) for it in its if it[0] == "epoch_split"}),
+            "items": sum(1 for it in its if it[0] == "epoch_split"),
+        },
+        "epoch_twin": {
+            "added_after_steps": TWIN_ADD_STEPS, "step_s": TWIN_DT, "steps_after": TWIN_AFTER,
+            "paths": ["addTarget(dict)", "addTarget(AgentConfig)", "addSensor(dict)", "target_addition event", "sensor_addition event",
+                      "truth dynamics object", "filter dynamics object"],
+            "configs_integrators": sorted({(it[1], it[2]) for it in its if it[0] == "epoch_twin"}),
+            "items": sum(1 for it in its if it[0] == "epoch_twin"),
+        },
         "propagation_items": len(props),
         "orbits_per_dynamics_integrator_span": _orbit_counts(props),
         "orbit_span_combinations": sum(len(it[7]) for it in props),
@@ -368,7 +462,7 @@ class _Ctx:
 
     def __init__(self, res, item, kind, method, T, t0):
         self.res, self.item, self.kind, self.method, self.T, self.t0 = res, item, kind, method, T, t0
-        self.mode = item[6]
+        self.mode = item[6] if item[0] == "prop" else item[0]
         self.ratios = {}
         # Solar radiation pressure with the eclipse model is a non-smooth force (LEO penumbra lasts ~8 s, a DOP853 step
         # ~300 s): a step straddling the transition is accepted although the jump falls between its stages, so the
@@ -742,6 +836,206 @@ def _epoch(ctx, orb, x0, whole, jd):
         ctx.compare("epoch_shift", orb, got, whole, tp, tv, nontrivial=nontriv, detail="shifted_start", extra={"delta_s": d, "sensitivity_km_per_1000s": sens})
 
 
+# ------------------------------------------------------------------------------------------------ epoch split (factory + clock)
+def _start_dt(seed):
+    """UTC datetime of ``_jd0(seed)``."""
+    return datetime(2018, 6, 15, 7, 30, 0) + timedelta(days=int(seed) % 1000)
+
+
+def _clock(start, T):
+    """A real ScenarioClock (fresh in-memory database for its epoch rows) started at ``start`` and ticked to T seconds."""
+    step = ES_CLOCK_STEP if T <= 10.0 * 86400.0 else 3600.0
+    scen.fresh()
+    setDBPath("sqlite://")
+    clk = ScenarioClock(start, T + 2.0 * step, step)
+    for _ in range(int(round(T / step))):
+        clk.ticToc()
+    if float(clk.time) != float(T):
+        raise RuntimeError(f"harness: clock at {float(clk.time)} instead of {T}")
+    return clk
+
+
+def _factory_dynamics(kind, method, start, T, x0):
+    """dynamicsFactory called the way Scenario.addTarget calls it, with a clock that shows T elapsed seconds."""
+    deg, order, bodies, srp, gr = SP_CFG[kind]
+    agent = AgentConfig(name="added", id=40002, platform=dict(ES_PLATFORM),
+                        state={"type": "eci", "position": [float(c) for c in x0[:3]], "velocity": [float(c) for c in x0[3:]]})
+    prop = PropagationConfig(propagation_model="special_perturbations", integration_method=method)
+    geo = GeopotentialConfig(model=ES_MODEL, degree=deg, order=order)
+    pert = PerturbationsConfig(third_bodies=list(bodies), solar_radiation_pressure=srp, general_relativity=gr)
+    return dynamicsFactory(agent, prop, geo, pert, _clock(start, T))
+
+
+def _run_epoch_split(res, item):
+    _, kind, span, Ts, rk_T, jd, seed, orb = item
+    span, jd = float(span), float(jd)
+    deg, order, bodies, srp, gr = SP_CFG[kind]
+    start = _start_dt(seed)
+    x0 = _state(orb)
+    a, e = orb[0], orb[1]
+    ratios = {}
+    for T in [float(t) for t in Ts]:
+        when = start + timedelta(seconds=T)
+        # (c) independent reference: the state `span` seconds after the absolute instant S + T (no start/elapsed pair)
+        ref = _call(spref.propagate, when, x0, span, ES_MODEL, deg, order, list(bodies), srp, gr, SAT_RATIO)
+        if _bad(ref):
+            raise RuntimeError(f"harness: reference trajectory failed: {ref!r}")
+        ref = ref[0]
+        # measured effect of counting T twice: direct construction with the epoch moved by T, elapsed time not compensated
+        sens = 0.0
+        if T > 0.0:
+            wit = _call(_dynamics(kind, "DOP853", jd + T / 86400.0).propagate, T, T + span, x0)
+            sens = 0.0 if _bad(wit) else fw.maxabs(wit[:3], ref[:3])
+        for method in METHODS:
+            if method == "RK45" and T > 0.0 and T not in [float(t) for t in rk_T]:
+                continue
+            ctx = _Ctx(res, item, kind, method, span, T)
+            ctx.ratios = ratios
+            tp_e, tv_e = tol_epoch(a, e, span) + ctx.srp_pos, tol_vel(a, e, span) / 5.0 + ctx.srp_vel
+            # reference comparison: library global error + (SRP) eclipse allowance for both integrators, see module docstring
+            tp_r = tol_pos(a, e, span) + (A_SRP * span * span if srp else 0.0)
+            tv_r = tol_vel(a, e, span) + (2.0 * A_SRP * span if srp else 0.0)
+            extra = {"elapsed_T": T, "sensitivity_km": sens}
+            dyn_a = _call(_factory_dynamics, kind, method, start, T, x0)
+            got_a = dyn_a if _bad(dyn_a) else _call(dyn_a.propagate, ScenarioTime(T), ScenarioTime(T + span), x0.copy())
+            ctx.compare("epoch_split", orb, got_a, ref, tp_r, tv_r, nontrivial=sens > 100.0 * tp_r, detail="factory_vs_absolute_epoch_reference",
+                        extra=dict(extra, split="(S, T)"))
+            if _bad(got_a) or np.asarray(got_a).shape != (6,):
+                continue
+            res.observe(got_a)
+            if T == 0.0:
+                continue
+            splits = [("factory_vs_restarted_clock", T)]
+            t1 = 300.0 * math.floor(T / 600.0)
+            if method == "DOP853" and 0.0 < t1 < T:
+                splits.append(("factory_vs_other_split", t1))
+            for detail, shift in splits:
+                dyn_b = _call(_factory_dynamics, kind, method, start + timedelta(seconds=shift), T - shift, x0)
+                got_b = dyn_b if _bad(dyn_b) else _call(dyn_b.propagate, ScenarioTime(T - shift), ScenarioTime(T - shift + span), x0.copy())
+                # with the elapsed time counted twice the two runs sit at S + 2T and S + 2T - shift: they differ by `shift`
+                ctx.compare("epoch_split", orb, got_b, got_a, tp_e, tv_e, nontrivial=sens * shift / T > 100.0 * tp_e, detail=detail,
+                            extra=dict(extra, split=f"(S+{shift:g}, {T - shift:g})"))
+                # and each split on its own against the absolute-epoch reference
+                ctx.compare("epoch_split", orb, got_b, ref, tp_r, tv_r, nontrivial=sens * (T - shift) / T > 100.0 * tp_r,
+                            detail="factory_vs_absolute_epoch_reference", extra=dict(extra, split=f"(S+{shift:g}, {T - shift:g})"))
+    res.case("input_unchanged", {"dyn": kind, "a": a, "e": e, "family": "epoch_split"}, bool(np.array_equal(x0, _state(orb))),
+             signature=f"C03/input_mutated/{kind}/epoch_split", item=item)
+    return ratios
+
+
+# ------------------------------------------------------------------------------------------------ twins in a real Scenario
+TWIN_A, TWIN_B, TWIN_B2, TWIN_S, TWIN_GROUND, TWIN_ENGINE = 40001, 40002, 40003, 60002, 60001, 7
+
+
+def _twin_config(kind, method, start, n_steps, x0, events):
+    deg, order, bodies, srp, gr = SP_CFG[kind]
+    return scen.config(
+        start, n_steps, [scen.engine(TWIN_ENGINE, [scen.target_eci(TWIN_A, x0[:3], x0[3:])], [scen.ground_sensor(TWIN_GROUND, 10.0, 20.0)])],
+        physics=int(TWIN_DT), truth_only=True, model="special_perturbations", integrator=method, events=events, seed=11,
+        geopotential={"model": ES_MODEL, "degree": deg, "order": order},
+        perturbations={"third_bodies": list(bodies), "solar_radiation_pressure": srp, "general_relativity": gr},
+    )
+
+
+def _run_epoch_twin(res, item):
+    _, kind, method, dt, k_add, n_after, seed, orb = item
+    dt, k_add, n_after = float(dt), int(k_add), int(n_after)
+    start = _start_dt(seed)
+    T = k_add * dt
+    x0 = _state(orb)
+    n_steps = k_add + n_after + 1
+    nontriv = T > 0.0
+    sig = f"C03/epoch_twin/{kind}/{method}"
+
+    def base(**kw):
+        d = {"dyn": kind, "method": method, "elapsed_T": T, "dt": dt, "a": orb[0], "e": orb[1], "inc": orb[2],
+             "raan": round(orb[3], 6), "argp": round(orb[4], 6), "nu": round(orb[5], 6)}
+        d.update(kw)
+        return d
+
+    def jd_at(k):
+        return datetimeToJulianDate(start + timedelta(seconds=k * dt))
+
+    def same(path, step, got, want):
+        got, want = np.asarray(got, dtype=float), np.asarray(want, dtype=float)
+        ok = got.shape == want.shape and bool(np.array_equal(got, want))
+        err = fw.maxabs(got[:3], want[:3]) if got.shape == want.shape == (6,) else math.inf
+        res.case("epoch_twin", base(path=path, steps_after_addition=step), ok, nontrivial=nontriv, signature=f"{sig}/{path}",
+                 observed={"pos_diff_km": err, "state": got}, expected={"pos_diff_km": 0.0, "state": want},
+                 outcome="identical" if ok else "differs", item=item)
+
+    def fail(path, exc):
+        res.case("epoch_twin", base(path=path), False, nontrivial=nontriv, signature=f"{sig}/{path}/exception/{type(exc).__name__}",
+                 observed=repr(exc)[:200], expected="twin flies with A", item=item)
+
+    def twin_spec(ident, state, sensor):
+        pos, vel = [float(c) for c in state[:3]], [float(c) for c in state[3:]]
+        return scen.space_sensor(ident, pos, vel) if sensor else scen.target_eci(ident, pos, vel)
+
+    # ---- run 1: the public addTarget / addSensor calls at clock time T
+    path = "added_by_call"
+    try:
+        app = scen.build(_twin_config(kind, method, start, n_steps, x0, []))
+        if k_add:
+            app.propagateTo(jd_at(k_add))
+        if float(app.clock.time) != T:
+            raise RuntimeError(f"harness: scenario clock at {float(app.clock.time)} instead of {T}")
+        sa = np.array(app.target_agents[TWIN_A].eci_state, dtype=float)
+        app.addTarget(twin_spec(TWIN_B, sa, False), TWIN_ENGINE)
+        app.addTarget(AgentConfig(**twin_spec(TWIN_B2, sa, False)), TWIN_ENGINE)
+        app.addSensor(twin_spec(TWIN_S, sa, True), TWIN_ENGINE)
+        # the dynamics objects the scenario built for the added agents, one step from the common state
+        dyn_ref = app.target_agents[TWIN_A].dynamics
+        want = dyn_ref.propagate(ScenarioTime(T), ScenarioTime(T + dt), sa.copy())
+        objs = {
+            "dynamics_object/truth": app.target_agents[TWIN_B].dynamics,
+            "dynamics_object/truth_from_AgentConfig": app.target_agents[TWIN_B2].dynamics,
+            "dynamics_object/sensor": app.sensor_agents[TWIN_S].dynamics,
+            "dynamics_object/filter": app.estimate_agents[TWIN_B].nominal_filter.dynamics,
+        }
+        filt_ref = app.estimate_agents[TWIN_A].nominal_filter.dynamics
+        for name, obj in objs.items():
+            ref_obj = filt_ref if name.endswith("filter") else dyn_ref
+            w = want if ref_obj is dyn_ref else ref_obj.propagate(ScenarioTime(T), ScenarioTime(T + dt), sa.copy())
+            same(name, 1, obj.propagate(ScenarioTime(T), ScenarioTime(T + dt), sa.copy()), w)
+        for k in range(1, n_after + 1):
+            app.propagateTo(jd_at(k_add + k))
+            a_now = np.array(app.target_agents[TWIN_A].eci_state, dtype=float)
+            res.observe(a_now)
+            same("added_by_call/addTarget_dict", k, app.target_agents[TWIN_B].eci_state, a_now)
+            same("added_by_call/addTarget_AgentConfig", k, app.target_agents[TWIN_B2].eci_state, a_now)
+            same("added_by_call/addSensor", k, app.sensor_agents[TWIN_S].eci_state, a_now)
+            # the truth record the agent hands to the database
+            same("added_by_call/ephemeris_record", k, app.target_agents[TWIN_B].getCurrentEphemeris().eci, app.target_agents[TWIN_A].getCurrentEphemeris().eci)
+    except Exception as exc:  # noqa: BLE001 - an exception on a lattice point is a reported outcome
+        fail(path, exc)
+        return {}
+    # ---- run 2: the same additions made by scenario events (start_time = end of the step T -> T+dt, see ASSUMPTIONS)
+    path = "added_by_event"
+    try:
+        when = scen.iso(start + timedelta(seconds=T + dt))
+        events = [
+            {"scope": "scenario_step", "scope_instance_id": 0, "start_time": when, "event_type": "target_addition",
+             "tasking_engine_id": TWIN_ENGINE, "target_agent": twin_spec(TWIN_B, sa, False)},
+            {"scope": "scenario_step", "scope_instance_id": 0, "start_time": when, "event_type": "sensor_addition",
+             "tasking_engine_id": TWIN_ENGINE, "sensor_agent": twin_spec(TWIN_S, sa, True)},
+        ]
+        app = scen.build(_twin_config(kind, method, start, n_steps, x0, events))
+        for k in range(1, n_after + 1):
+            app.propagateTo(jd_at(k_add + k))
+            a_now = np.array(app.target_agents[TWIN_A].eci_state, dtype=float)
+            present = TWIN_B in app.target_agents and TWIN_S in app.sensor_agents
+            res.case("epoch_twin", base(path=path, steps_after_addition=k), present, nontrivial=nontriv, signature=f"{sig}/added_by_event/agent_missing",
+                     observed=present, expected=True, item=item)
+            if not present:
+                continue
+            same("added_by_event/target", k, app.target_agents[TWIN_B].eci_state, a_now)
+            same("added_by_event/sensor", k, app.sensor_agents[TWIN_S].eci_state, a_now)
+    except Exception as exc:  # noqa: BLE001
+        fail(path, exc)
+    return {}
+
+
 # ------------------------------------------------------------------------------------------------ closed-form solver
 def _tol_universal(x0, state_ref, mu):
     """Error budget of solveKeplerProblemUniversal, derived from its stopping rule.
@@ -1000,6 +1294,10 @@ def run_item(item):
     kind = item[0]
     if kind == "prop":
         ratios = _run_prop(res, item).ratios
+    elif kind == "epoch_split":
+        ratios = _run_epoch_split(res, item)
+    elif kind == "epoch_twin":
+        ratios = _run_epoch_twin(res, item)
     elif kind == "universal":
         ratios = _run_universal(res, item)
     elif kind == "universal_branches":
@@ -1014,6 +1312,8 @@ def run_item(item):
     res.cpu_s = time.process_time() - cpu0
     if kind == "prop":
         res.ratio_group = f"{item[1]}/{item[2]}/T={item[3]:g}"
+    elif kind == "epoch_split":
+        res.ratio_group = f"epoch_split/{item[1]}/span={item[2]:g}/a={item[7][0]:g}"
     return res
 
 
